@@ -205,7 +205,7 @@ the scaled triangle -/
 def ScaleBoxLaw {B : Type} (box : V × V × V → B) (sbox : B → B) (fV : V → V) : Prop :=
   ∀ c : V × V × V, box (mapTri fV c) = sbox (box c)
 
-private theorem allCoords_scaledIdx (fV : V → V) (m : Bool) (vs : List V) (idx : List Tri) (cur : List (V × V × V))
+theorem allCoords_scaledIdx (fV : V → V) (m : Bool) (vs : List V) (idx : List Tri) (cur : List (V × V × V))
     (h : allCoords vs idx = some cur) :
     allCoords (vs.map fV) (if m then revIdx idx else idx) =
       some ((if m then cur.map swapC else cur).map (mapTri fV)) := by
